@@ -103,7 +103,7 @@ class Lib:
 
 
 def workdir(root, pid):
-    d = os.path.join(root, "work", pid, "e2")
+    d = os.path.join(os.environ.get("VERIF_WORK_ROOT") or os.path.join(root, "work"), pid, "e2")
     os.makedirs(d, exist_ok=True)
     return d
 
